@@ -734,18 +734,26 @@ fn bench() -> ! {
     let root = build_root();
     let real = new_real_vm();
     let mut st = rebuild(&root, &[], &real).unwrap();
+    let cpu = || -> (f64, f64) {
+        let s = std::fs::read_to_string("/proc/self/stat").unwrap_or_default();
+        let f: Vec<&str> = s.rsplit(')').next().unwrap_or("").split_whitespace().collect();
+        let g = |i: usize| f.get(i).and_then(|x| x.parse::<f64>().ok()).unwrap_or(0.0) * 10.0;
+        (g(11), g(12))
+    };
     let t = |name: &str, n: usize, f: &mut dyn FnMut()| {
         let t0 = Instant::now();
+        let c0 = cpu();
         for _ in 0..n {
             f();
         }
-        eprintln!("BENCH {name}: {:.3} ms", t0.elapsed().as_secs_f64() * 1000.0 / n as f64);
+        let c1 = cpu();
+        eprintln!("BENCH {name}: wall {:.3} ms, user {:.3} ms, sys {:.3} ms", t0.elapsed().as_secs_f64() * 1000.0 / n as f64, (c1.0 - c0.0) / n as f64, (c1.1 - c0.1) / n as f64);
     };
     t("new_real_vm", 200, &mut || drop(new_real_vm()));
     t("new_det_vm", 200, &mut || drop(new_det_vm()));
     t("fork", 50, &mut || drop(st.fork()));
     t("compute_fp", 50, &mut || drop(compute_fp(&mut st.sim, &root)));
-    for op in [Op::Std(Tx::TransferF), Op::Std(Tx::Faucet), Op::Std(Tx::NextRound), Op::WasmMix, Op::Std(Tx::PublishWat)] {
+    for op in [Op::Std(Tx::TransferF), Op::WasmMix] {
         let n = op.name();
         t(&format!("build_exe {n}"), 50, &mut || drop(build_exe(&mut st.sim, &root, op, 5)));
         let e = build_exe(&mut st.sim, &root, op, 5).unwrap();
@@ -759,8 +767,10 @@ fn bench() -> ! {
         ktc.enable_kernel_trace = true;
         t(&format!("run warm real kernel-trace {n}"), 20, &mut || drop(run_once(db, &real, &ktc, &e.exe)));
         let jobs = vec![Job { exe: &e.exe, cfg: &e.cfg }, Job { exe: &e.exe, cfg: &e.cfg }];
-        t(&format!("schedule pair cold {n}"), 30, &mut || drop(run_schedule(db, &new_det_vm(), &jobs, &[])));
-        t(&format!("schedule pair warm-engine {n}"), 30, &mut || drop(run_schedule(db, &det, &jobs, &[])));
+        t(&format!("spawn 2 threads {n}"), 100, &mut || std::thread::scope(|s| { s.spawn(|| 1); s.spawn(|| 2); }));
+        t(&format!("2 threads run warm det unscheduled {n}"), 50, &mut || std::thread::scope(|s| { for _ in 0..2 { s.spawn(|| drop(with_ctl(Plan::Shared, None, || run_once(db, &det, &e.cfg, &e.exe)))); } }));
+        t(&format!("schedule pair cold {n}"), 100, &mut || drop(run_schedule(db, &new_det_vm(), &jobs, &[])));
+        t(&format!("schedule pair warm-engine {n}"), 100, &mut || drop(run_schedule(db, &det, &jobs, &[])));
     }
     std::process::exit(0)
 }
